@@ -89,11 +89,18 @@ def _vertical_one(c):
     for method in ('dense', 'sparse'):
       eq_imp.vertical_matmul_method = method
       im = np.asarray(eq_imp.implicit_terms(st0).temperature_variation)[:, 0, 0] / SQRT4PI
+      # the property itself, on the code alone: what the explicit half loses when c moves to Tref is what the
+      # implicit half gains
+      code_explicit = (adia + vert)[:, 0, 0]
+      if not np.all(np.abs(code_explicit - im) <= 64 * spectral.EPS * (1 + np.abs(im)) * (1 + abs(prof).max())):
+        r = int(np.argmax(np.abs(code_explicit - im)))
+        bad(f'vertical:identity:{method}', f'unit divergence at level {s}, row {r}: explicit operators on T\' = c give {code_explicit[r]!r}, '
+            f'implicit_terms with Tref = c gives {im[r]!r}')
       for r in range(K):
         e = -_form(c['H'][r][s], alpha)
         if abs(im[r] - e) > tol(e):
           bad(f'vertical:H:{method}', f'implicit temperature tendency of unit divergence at level {s}, row {r}: {im[r]!r}, spec {e!r}')
-  return out
+  return common.settle(out, lambda g: g.startswith('vertical:identity') or ':exception:' in g)
 
 
 replay_vertical = common.per_case(_vertical_one, 'vertical')
@@ -266,8 +273,8 @@ def _ledger_one(c):
       bad(f'relation:cloud:{f}', f'cloud-moisture class: total tendency depends on the reference profile, max difference {err:.3e} (scale {sc:.3e})')
   if 'explicit.sim_time' in recs['A']:
     if float(recs['A']['explicit.sim_time']) != 1.0 or float(recs['A']['implicit.sim_time']) != 0.0:
-      bad('ledger:sim_time', 'clock tendencies are not (1, 0)')
-  return out
+      bad('relation:sim_time', 'clock tendencies are not (1, 0)')
+  return common.settle(out, lambda g: g.startswith('relation:') or ':exception:' in g)
 
 
 replay_ledger = common.per_case(_ledger_one, 'ledger')
@@ -276,7 +283,7 @@ REPLAYERS = {'vertical': replay_vertical, 'ledger': replay_ledger}
 
 def replay(ctx, kind, cases):
   for m in REPLAYERS[kind](cases):
-    ctx.mismatch(kind, m['case'], m['sig'], m['detail'])
+    ctx.record(kind, m)
 
 
 GRIDS_Q = [dict(M=5, impl='real'), dict(M=4, impl='fast', mult=4), dict(M=3, L=5, impl='real', offset=0.3)]
@@ -331,7 +338,7 @@ def run(ctx):
   for c in lcases:
     ctx.distinct.add(json.dumps([c[k] for k in ('class', 'oro', 'ntracers', 'vadv', 'constA', 'constB', 'K', 'grid')]))
   for m in res:
-    ctx.mismatch('vertical' if m['sig'].startswith('vertical') else 'ledger', m['case'], m['sig'], m['detail'])
+    ctx.record('vertical' if m['sig'].startswith('vertical') else 'ledger', m)
   ctx.sample({k: vcases[3][k] for k in ('b', 'den', 'tref', 'kappa')} | {'H_row1': vcases[3]['H'][0]})
   ctx.sample({k: lcases[5][k] for k in ('class', 'oro', 'ntracers', 'vadv', 'constA', 'constB', 'claimed', 'K', 'grid', 'amp')}
              | {'terms': [t['n'] for t in lcases[5]['terms']]})
